@@ -285,6 +285,27 @@ CLAIMED["C12"] = {
     "design": "DESIGN.md section 3 C12",
 }
 
+CLAIMED["C08"] = {
+    "text": "Bounded model checking over histories and schedules: the real Input (send/_send/find_key, "
+            "_wait_for_read_ready_or_timeout, _nonblocking_read, unget_bytes, the three trigger factories, "
+            "ReplacedSigIntHandler, Nonblocking, get_key) runs against the OS model; a history of up to 3 steps (thorough 4) "
+            "over 28 step kinds - arrivals from a chunk catalogue (ASCII, 2/3/4-byte characters, escape sequences whole and "
+            "split, bursts of 1031 / 1200 bytes whose READ_SIZE boundary falls inside a character / sequence), unget_bytes, "
+            "event / scheduled (past, future, equal times) / thread-safe triggers, clock ticks, requests with timeout 0 / "
+            "small / None, and arrivals, thread-safe callbacks and SIGINT scheduled INSIDE the next blocked request - is a "
+            "tuple of selectors enumerated by the solver (quick: 250 seeded histories per first step and configuration; "
+            "thorough: all), for paste_threshold default / 1 / None and sigint_event on/off. A reference queue model checks: "
+            "bytes returned == bytes arrived (nothing lost, duplicated or reordered), per-trigger order, scheduled events "
+            "never early and in time order, SIGINT accounted for, no None while something is deliverable or before the "
+            "timeout, no wait while something is deliverable, paste events hold exactly the burst's keypresses.",
+    "note": "Trusted: CPython, CrossHair + z3 (exhaustive enumeration of the history selectors; a realised history runs on "
+            "concrete values), the OS model (select/read/pipes/clock contract; the clock moves 1 ms past a deadline on "
+            "timeout). Outside: true preemption between bytecodes, the kernel's tty/pipe semantics beyond the model, "
+            "characters split by an arrival (only READ_SIZE splits them). Shares the known finding C03-prefix-then-nonascii.",
+    "technique": TECH + "; OS-model environment stub, histories and schedules as symbolic selectors, reference queue oracle",
+    "design": "DESIGN.md section 3 C08",
+}
+
 NOT_YET = {}
 
 ALL = ["C%02d" % i for i in range(1, 21)]
